@@ -379,3 +379,103 @@ Proof. split.
   - induction ms as [|m ms IH]; [reflexivity|]. cbn [map forallb item_ok]. exact IH. Qed.
 Lemma index_example : lexed (all_chunks (index_file true)) = flat_map star_toks [L "./types"; L "./commands"; L "./events"].
 Proof. vm_compute. reflexivity. Qed.
+
+(* ---------------------------------------------------------------- params interface: channel members, index signature *)
+(* Name<A, B, ...> for a leaf name: Record<K, V> is the two-argument instance, Channel<T> the one-argument one *)
+Lemma prim_generic f name elems : leaf_ok name = true -> elems <> [] -> Forall (Rep f) elems ->
+  isPrim (p_type (S f)) (KId name :: P "<" :: sepc elems ++ [P ">"]).
+Proof. intros Hname Hne HF. pose proof (leaf_ident name Hname) as Hi. split.
+  - exists (KId name). eexists. repeat split; unfold tk_is.
+    + apply (ident_not_single name "|"%char); auto.
+    + apply (ident_not_single name "]"%char); auto.
+  - intros rest Hs.
+    assert (Forall (isTy (p_type (S f))) elems) as HT.
+    { rewrite Forall_forall in *. intros x Hx. apply rep_isTy, HF, Hx. }
+    cbn [app p_primary]. rewrite (leaf_not_typeof name Hname). rewrite p_path_stop by reflexivity. cbn [rev app].
+    change (tk_is "<" (P "<")) with true. cbv iota. rewrite <- app_assoc. cbn [app].
+    destruct (tylist_ok (p_type (S f)) ">" eq_refl eq_refl stop_close_gt elems
+                (S (List.length (sepc elems ++ P ">" :: rest))) [] rest Hne HT) as [ts [E Hts]].
+    { rewrite app_length. pose proof (sepc_len _ _ HT). lia. }
+    rewrite E. exists (TyRef [name] ts). split; [reflexivity|]. cbn [ty_ok rev app]. unfold leaf_ok in Hname. rewrite Hname, Hts. reflexivity. Qed.
+
+Definition chan_toks (g : c_cfg) (t : tstruct) : list tk := KId (L "Channel") :: P "<" :: rtoks g t ++ [P ">"].
+Lemma channel_ptype g t rest : leaves_ok g t = true -> S (tdepth t) < TYF -> stop rest ->
+  exists ty, ptype (chan_toks g t ++ rest) = Some (ty, rest) /\ ty_ok ty = true.
+Proof. intros Hl Hd Hs. unfold ptype. change TYF with (S 63) in *. apply rep_parse; [|exact Hs].
+  apply rep_single. change 63 with (S 62). apply (prim_generic 62 (L "Channel") [rtoks g t]); [reflexivity|discriminate|].
+  constructor; [|constructor]. apply render_rep; [exact Hl|lia]. Qed.
+
+(* members followed by an arbitrary tail that p_members finishes *)
+Lemma p_members_ok_tail (tail : list tk) (k : nat) (ixs : list (str * ty * ty)) rest :
+  (forall n acc ix, k <= n -> p_members ptype n tail acc ix = Some ((rev acc, rev ix ++ ixs), rest)) ->
+  forall ms n acc ix, Forall good_member ms -> 2 * List.length ms + k <= n ->
+  exists asts, p_members ptype n (flat_map member_toks ms ++ tail) acc ix = Some ((rev acc ++ asts, rev ix ++ ixs), rest) /\
+               Forall2 member_matches ms asts.
+Proof. intros Hbase. induction ms as [|m ms IH]; intros n acc ix HF Hn.
+  - exists []. cbn [flat_map app]. rewrite Hbase by (cbn [List.length] in Hn; lia). rewrite app_nil_r. split; [reflexivity|constructor].
+  - inversion HF as [|? ? Hm HF']; subst. destruct Hm as [Hk Hp].
+    destruct n as [|[|n]]; [cbn [List.length] in Hn; lia|cbn [List.length] in Hn; lia|].
+    cbn [flat_map]. unfold member_toks at 1. rewrite <- !app_assoc. cbn [app]. rewrite <- !app_assoc. cbn [app].
+    rewrite <- (app_assoc (gm_toks m)). cbn [app].
+    destruct (Hp (flat_map member_toks ms ++ tail)) as [t [Et Ht]].
+    rewrite (p_members_member _ _ _ _ t); [|exact Hk|exact Et].
+    rewrite p_members_semi. destruct (IH n ((gkey_ast (gm_key m), gm_opt m, t) :: acc) ix HF') as [asts [E HM]]; [cbn [List.length] in Hn; lia|].
+    rewrite E. exists ((gkey_ast (gm_key m), gm_opt m, t) :: asts). split; [cbn [rev]; rewrite <- app_assoc; reflexivity|].
+    constructor; [repeat split; assumption|exact HM]. Qed.
+
+(* the fixed index signature  [key: string]: unknown;  and the closing brace *)
+Definition index_tail (rest : list tk) : list tk :=
+  P "[" :: KId (L "key") :: P ":" :: KId (L "string") :: P "]" :: P ":" :: KId (L "unknown") :: P ";" :: P "}" :: rest.
+Definition index_sig : str * ty * ty := (L "key", TyRef [L "string"] [], TyRef [L "unknown"] []).
+Lemma index_tail_ok rest n acc ix : 3 <= n ->
+  p_members ptype n (index_tail rest) acc ix = Some ((rev acc, rev ix ++ [index_sig]), rest).
+Proof. intros Hn. destruct n as [|[|[|n]]]; try lia. reflexivity. Qed.
+
+Definition params_iface_toks (name : str) (ms : list gmember) : list tk :=
+  [KId (L "export"); KId (L "interface"); KId name; P "{"] ++ flat_map member_toks ms ++ index_tail [].
+Theorem skeleton_params_interface name ms rest :
+  is_binding_name name = true -> Forall good_member ms ->
+  exists asts, p_item (params_iface_toks name ms ++ rest) = Some (IInterface name [] None asts [index_sig], rest) /\
+               Forall2 member_matches ms asts /\ item_ok (IInterface name [] None asts [index_sig]) = true.
+Proof. intros Hn HF. unfold params_iface_toks. cbn [app]. rewrite p_item_interface. unfold pmembers.
+  rewrite <- app_assoc. change (index_tail [] ++ rest) with (index_tail rest).
+  destruct (p_members_ok_tail (index_tail rest) 3 [index_sig] rest (index_tail_ok rest) ms
+              (S (List.length (flat_map member_toks ms ++ index_tail rest))) [] [] HF) as [asts [E HM]].
+  { rewrite app_length. pose proof (flat_len ms). cbn [index_tail List.length]. lia. }
+  cbn [rev app] in E. rewrite E. exists asts. split; [reflexivity|]. split; [exact HM|].
+  cbn [item_ok]. rewrite Hn. cbn [forallb andb]. rewrite (members_ok_all _ _ HF HM). reflexivity. Qed.
+
+(* on the model's commands: value parameters and channels of the plain-mode params interface *)
+Definition param_member (g : c_cfg) (c : c_cmd) (p : str * qty) : gmember :=
+  {| gm_key := key_g (param_ser g c (fst p)); gm_opt := is_option (snd p); gm_toks := rtoks g (pts (qtts (snd p))) |}.
+Definition channel_member_g (g : c_cfg) (c : c_cmd) (ch : str * qty) : gmember :=
+  {| gm_key := key_g (param_ser g c (fst ch)); gm_opt := false; gm_toks := chan_toks g (pts (qtts (snd ch))) |}.
+Definition cmd_params_toks (g : c_cfg) (c : c_cmd) : list tk :=
+  params_iface_toks (ty_ts c ++ L "Params") (map (param_member g c) (c_values c) ++ map (channel_member_g g c) (c_channels c)).
+Definition chan_in_budget (g : c_cfg) (t : qty) : bool :=
+  leaves_ok g (pts (qtts t)) && (S (tdepth (pts (qtts t))) <? TYF).
+Theorem params_interface_tokens_ok g c rest :
+  is_binding_name (ty_ts c ++ L "Params") = true ->
+  forallb (fun p => type_in_budget g (snd p)) (c_values c) = true ->
+  forallb (fun ch => chan_in_budget g (snd ch)) (c_channels c) = true ->
+  exists asts, p_item (cmd_params_toks g c ++ rest) = Some (IInterface (ty_ts c ++ L "Params") [] None asts [index_sig], rest) /\
+               item_ok (IInterface (ty_ts c ++ L "Params") [] None asts [index_sig]) = true.
+Proof. intros Hn Hv Hc. unfold cmd_params_toks.
+  destruct (skeleton_params_interface (ty_ts c ++ L "Params")
+              (map (param_member g c) (c_values c) ++ map (channel_member_g g c) (c_channels c)) rest Hn) as [asts [E [_ Hok]]].
+  - apply Forall_app. split; rewrite Forall_forall; intros m Hm; apply in_map_iff in Hm as [p [<- Hin]].
+    + rewrite forallb_forall in Hv. specialize (Hv p Hin). apply andb_true_iff in Hv as [Hl Hd]. apply Nat.ltb_lt in Hd.
+      split; [apply key_g_ok|]. intros r. cbn [param_member gm_toks]. apply render_ptype; [exact Hl|exact Hd|apply stop_semi].
+    + rewrite forallb_forall in Hc. specialize (Hc p Hin). apply andb_true_iff in Hc as [Hl Hd]. apply Nat.ltb_lt in Hd.
+      split; [apply key_g_ok|]. intros r. cbn [channel_member_g gm_toks]. apply channel_ptype; [exact Hl|exact Hd|apply stop_semi].
+  - exists asts. split; assumption. Qed.
+
+Definition ex_cmd : c_cmd :=
+  {| cc_name := L "stream_items"; cc_serde := [];
+     cc_params := [(L "user_id", T0 "i32"); (L "filter", T1 "Option" (T0 "String")); (L "on_event", T1 "Channel" (T1 "Vec" (T0 "Item")))];
+     cc_ret := None |}.
+Lemma params_tokens_example :
+  lexed (params_iface_chunks g0 ex_cmd) = cmd_params_toks g0 ex_cmd /\ toks_of (params_iface_chunks g0 ex_cmd) = cmd_params_toks g0 ex_cmd /\
+  is_binding_name (ty_ts ex_cmd ++ L "Params") = true /\
+  forallb (fun p => type_in_budget g0 (snd p)) (c_values ex_cmd) = true /\ forallb (fun ch => chan_in_budget g0 (snd ch)) (c_channels ex_cmd) = true.
+Proof. vm_compute. repeat split. Qed.
